@@ -43,6 +43,13 @@ int main() {
     OFF("CP_saw_interpolation_marker", CP, saw_interpolation_marker) OFF("CP_is_octal", CP, is_octal) OFF("CP_is_hex", CP, is_hex)
     OFF("CP_unicode_size", CP, unicode_size) OFF("CP_interpolation_allowed", CP, interpolation_allowed) OFF("CP_octal_matches", CP, octal_matches)
     OFF("CP_hex_matches", CP, hex_matches) }
+  { using Scope = detail::Stack_Holder::Scope; using Entry = Scope::value_type;
+    SZ("Scope", Scope) OFF("Scope_data", Scope, data) SZ("Scope_Entry", Entry) OFF("Entry_first", Entry, first) OFF("Entry_second", Entry, second) }
+  OFF("DE_mutex", detail::Dispatch_Engine, m_mutex) OFF("DE_state", detail::Dispatch_Engine, m_state) OFF("DE_stack_holder", detail::Dispatch_Engine, m_stack_holder)
+  OFF("DE_conversions", detail::Dispatch_Engine, m_conversions)
+  OFF("State_functions", detail::Dispatch_Engine::State, m_functions) OFF("State_function_objects", detail::Dispatch_Engine::State, m_function_objects)
+  OFF("State_boxed_functions", detail::Dispatch_Engine::State, m_boxed_functions) OFF("State_global_objects", detail::Dispatch_Engine::State, m_global_objects)
+  OFF("State_types", detail::Dispatch_Engine::State, m_types) SZ("DE_State", detail::Dispatch_Engine::State)
   SZ("File_Position", File_Position) SZ("Parse_Location", Parse_Location)
   SZ("std_string", std::string) SZ("std_vector", std::vector<int>) SZ("std_shared_ptr", std::shared_ptr<int>)
   static_assert(sizeof(std::string) == 32 && sizeof(std::vector<int>) == 24 && sizeof(std::shared_ptr<int>) == 16, "libstdc++ layouts the C models rely on");
